@@ -563,8 +563,11 @@ impl FlatGraph {
                 lines = 3;
             }
             for line in 1..lines {
+                // `wrapping_add`: the extra cache lines of the last (short) record can lie past the
+                // end of the allocation, where `add` would be undefined behaviour; a prefetch of
+                // such an address is harmless.
                 _mm_prefetch(
-                    ptr.add(line.saturating_mul(PREFETCH_CACHELINE_BYTES)),
+                    ptr.wrapping_add(line.saturating_mul(PREFETCH_CACHELINE_BYTES)),
                     _MM_HINT_T0,
                 );
             }
